@@ -202,6 +202,30 @@ checked_neg }` (src/int/{sign,neg,cmp,add}.rs, src/int.rs; namespace CB.Gen.IntS
   and `Limb::BYTES` (`16 / Limb::BYTES` is `2`); a call at ANOTHER limb count through a type alias, `U64::from_u64(x)` =
   `from_u64 1 x` (`U<bits>` = `Uint<bits / 64>`), also when the callee has `assert!`s: they are conjoined to the caller's
   `<fn>_asserts` at that limb count (`from_u64_asserts 1 x`; the arguments must be expressions over the caller's parameters).
+Ninth unit group (round 4; written to lean/CB/Gen/SafeGcd.lean, imports CB.Gen.Prim): the word-level core of safegcd —
+`iterations`, `inv_mod2_62`, `jump` (and its nested `const fn min`) of src/modular/safegcd.rs (namespace CB.Gen.SafeGcd; 64-bit
+configuration; the hook module `mod verif { .. }`, which only re-exports them, is cut out: unit option `skip_mods`).
+Subset extensions used there (those that change how a body is read are enabled per unit by `defer_lets=True`):
+  slices of plain words `&[Word]` / `&[u64]`: the list of the words, `s[i]` is `s.getD i 0#64` of type `u64`;
+  `type Name = <type>;` aliases of the file (`type Matrix = [[i64; 2]; 2];`), arrays of fixed arrays (the tuple of the rows),
+  array LITERALS `[a, b]` (a tuple), `t[K][L]` (components), `t[K] = e` and `(t[0], t[1]) = (..)` on a fixed array (the variable
+  is re-bound to the tuple with component K replaced; the right-hand side of a destructuring assignment first);
+  block EXPRESSIONS `{ stmts; e }`, cfg-attributed inner blocks (`#[cfg(target_pointer_width = "32")] { .. }` is removed, the
+  64-bit twin stays), `if c { a } else { b }` as an EXPRESSION (`if c then a else b`);
+  a nested `const fn` item is cut out of the body and translated as a function of the unit under its own name (`min`);
+  unsigned `/` and `%` by a non-zero CONSTANT (`BitVec` `udiv` / `umod`); `trailing_zeros()` (`BitVec.ctz`, the width for zero);
+  `let (a, b, c) = (62, e1, e2);` with untyped literals among the components: component-wise `let`s, every right-hand side
+  evaluated before any name is bound; the untyped one stays an untyped counter until a use fixes its type;
+  a `let x = <expression of untyped literals and typed variables>;` whose integer type only its USE fixes
+  (`let mask = (1 << n) - 1; .. & mask`) is translated at the use, at the type wanted there — refused if a variable it reads
+  has been re-bound in between;
+  `loop { pre..; if c { break; } post.. }` (exactly one `break`, in a top-level `if` of the body): a fifth loop form, the
+  auxiliary definition `<fn>_loop<k> captured.. : Nat → state.. → state` by recursion on a FUEL argument
+  (`| 0, s => s | n + 1, s => pre; if c then s' else post; recurse n s''`).  A `loop` has no syntactic trip bound: the fuel is
+  an INPUT of the translation (unit option `fuel={'jump': '64'}`; without it the function is not translated) and the bridge
+  has to prove that the `break` is reached within it and that more fuel changes nothing (`src_jump_fuel_suffices`).  An
+  untyped state variable (`steps = 62`) gets the integer type that type-checks the body (signed and unsigned candidates; all
+  successful candidates must produce the same text).
 """
 import os, re, sys, json
 
@@ -414,11 +438,34 @@ class P:
             self.eat()
             save, self.nostruct = self.nostruct, False
             elem = self.expr()
+            if self.at(',') or self.at(']'):
+                # an array LITERAL `[a, b, ..]` (round 4, safegcd): the tuple of its elements
+                items = [elem]
+                while self.at(','):
+                    self.eat()
+                    if self.at(']'):
+                        break
+                    items.append(self.expr())
+                self.eat('op', ']')
+                self.nostruct = save
+                return ('tuple', items)
             self.eat('op', ';')
             count = self.expr()
             self.eat('op', ']')
             self.nostruct = save
             return ('arrayrep', elem, count)
+        if tok[0] == 'op' and tok[1] == '{':
+            # a block EXPRESSION `{ stmts; final }` (round 4, safegcd)
+            self.eat()
+            save, self.nostruct = self.nostruct, False
+            stmts, fin = self.block()
+            self.eat('op', '}')
+            self.nostruct = save
+            if fin is None:
+                raise Unsupported('block expression without a value')
+            return ('block', stmts, fin)
+        if tok == ('id', 'if'):
+            return self.if_expr()
         if tok[0] == 'id':
             path = [self.eat()[1]]
             while self.at('::'):
@@ -435,6 +482,30 @@ class P:
                 return ('var', path[0])
             return ('path', path)
         raise Unsupported('primary ' + str(tok))
+
+    def if_expr(self):
+        """`if cond { [stmts;] e } else { [stmts;] e }` as an EXPRESSION -> ('ifexpr', cond, ('block', ..), ('block', ..))"""
+        self.eat('id', 'if')
+        save, self.nostruct = self.nostruct, True
+        cond = self.expr()
+        self.nostruct = False
+        arms = []
+        for k in range(2):
+            self.eat('op', '{')
+            stmts, fin = self.block()
+            self.eat('op', '}')
+            if fin is None:
+                raise Unsupported('if expression without a value')
+            arms.append(('block', stmts, fin))
+            if k == 0:
+                if not self.at('else'):
+                    raise Unsupported('if expression without else')
+                self.eat()
+                if self.at('if'):
+                    arms.append(self.if_expr())
+                    break
+        self.nostruct = save
+        return ('ifexpr', cond, arms[0], arms[1])
 
     def struct_lit(self, name):
         """`Name { a, b: e, .. }`"""
@@ -643,7 +714,26 @@ class P:
                 stmts.append(('while', cond, body))
             elif tok == ('id', 'if'):
                 if not self.if_return(stmts):       # `if c { return e; }` (an early return) before the general `if` statement
-                    stmts.append(self.if_())
+                    save_i = self.i
+                    try:
+                        stmts.append(self.if_())
+                    except Unsupported:
+                        # not an `if` statement: an `if` EXPRESSION in final position (`if a > b { b } else { a }`)
+                        self.i, self.nostruct = save_i, False
+                        e = self.expr()
+                        if self.at_end():
+                            return stmts, e
+                        raise Unsupported('if expression used as a statement')
+            elif tok == ('id', 'loop') and self.peek(1) == ('op', '{'):
+                self.eat(); self.eat()
+                body, fin = self.block()
+                if fin is not None:
+                    raise Unsupported('loop body ends in an expression')
+                self.eat('op', '}')
+                stmts.append(('loop', body))
+            elif tok == ('id', 'break') and self.peek(1) == ('op', ';'):
+                self.eat(); self.eat()
+                stmts.append(('break',))
             elif tok[0] == 'id' and self.peek(1)[0] == 'op' and self.peek(1)[1] in ASSIGN_OPS:
                 name = self.eat()[1]
                 op = self.eat()[1]
@@ -658,7 +748,7 @@ class P:
                 pass
             elif tok[0] == 'id' and self.peek(1) in (('op', '['), ('op', '.')) and self.place_assign(stmts):
                 pass
-            elif tok == ('op', '(') and self.tuple_assign(stmts):
+            elif tok == ('op', '(') and OPTS.get('nat_loops') and self.tuple_assign(stmts):     # G11's form, in its units only; elsewhere the general `assign_tuple` below
                 pass
             else:
                 e = self.expr()
@@ -729,6 +819,52 @@ def strip_panic_guards(body):
     return body, conds
 
 
+def _balanced_end(text, j, open_ch='{', close_ch='}'):
+    """position just after the bracket closing the one opened right before `j`"""
+    depth = 1
+    while depth and j < len(text):
+        depth += {open_ch: 1, close_ch: -1}.get(text[j], 0)
+        j += 1
+    return j
+
+
+def select_cfg_blocks(body):
+    """cfg-attributed inner BLOCKS `#[cfg(target_pointer_width = "32")] { .. }` are removed (the 64-bit configuration is
+    the one translated); the attribute of the 64-bit twin is dropped later with every other attribute, its block stays"""
+    while True:
+        m = re.search(r'#\[cfg\(target_pointer_width\s*=\s*"32"\)\]\s*\{', body)
+        if not m:
+            return body
+        body = body[:m.start()] + body[_balanced_end(body, m.end()):]
+
+
+def strip_nested_fns(body):
+    """remove nested items `const fn name(..) -> T { .. }` from a body (they are translated as functions of the unit:
+    `find_functions` sees them too)"""
+    while True:
+        m = FN_PRIV.search(body)
+        if not m:
+            return body
+        body = body[:m.start()] + body[_balanced_end(body, m.end()):]
+
+
+def has_break(stmts):
+    for st in stmts:
+        if st[0] == 'break':
+            return True
+        if st[0] in ('while',) and has_break(st[2]):
+            return True
+        if st[0] == 'loop' and has_break(st[1]):
+            return True
+        if st[0] == 'if' and (has_break(st[2]) or (st[3] and has_break(st[3]))):
+            return True
+    return False
+
+
+# `type Name = <type>;` aliases of the file being translated (round 4, safegcd: `type Matrix = [[i64; 2]; 2];`)
+TYPE_ALIASES = {}
+
+
 def lvalue_name(lv):
     """the variable a destructuring-assignment target writes: `x`, `arr[i]`, `arr[i].0` (None for `_`)"""
     if lv[0] == 'var':
@@ -762,6 +898,8 @@ def assigned_vars(stmts, acc=None, local=None):
                 add(lvalue_name(lv))
         elif k == 'while':
             assigned_vars(st[2], acc, local)
+        elif k == 'loop':
+            assigned_vars(st[1], acc, local)
         elif k == 'if':
             assigned_vars(st[2], acc, local)
             if st[3]:
@@ -938,6 +1076,17 @@ def ty_of(t, self_ty):
     if m:
         # a `ConstCtOption<T>` is the pair (value, is_some mask), as in CB/Model/Shift.lean
         return (ty_of(m.group(1), self_ty), 'choice')
+    if re.match(r'\[\s*(Word|u64)\s*\]$', t):
+        return 'words'       # a slice of plain words `&[Word]` / `&[u64]`: the list of the words; `s[i]` is a `u64`
+    if t in TYPE_ALIASES:
+        return ty_of(TYPE_ALIASES[t], self_ty)
+    m = re.match(r'\[\s*(\[.*\])\s*;\s*(\d+)\s*\]$', t)
+    if m:
+        # an array of fixed arrays `[[i64; 2]; 2]`: the tuple of its rows
+        el = ty_of(m.group(1), self_ty)
+        if not isinstance(el, tuple) or int(m.group(2)) < 2:
+            raise Unsupported('array type ' + t)
+        return tuple(el for _ in range(int(m.group(2))))
     raise Unsupported('type ' + t)
 
 
@@ -947,7 +1096,9 @@ def lean_ty(t):
     if t == 'bool':
         return 'Bool'
     if isinstance(t, tuple):
-        return ' × '.join(lean_ty(x) for x in t)
+        return ' × '.join((f'({lean_ty(x)})' if isinstance(x, tuple) else lean_ty(x)) for x in t)
+    if t == 'words':
+        return 'List (BitVec 64)'
     if isinstance(t, str) and t.startswith('struct:'):
         return STRUCTS[t[7:]][0]
     if isinstance(t, str) and t.startswith('wrap:'):
@@ -1111,6 +1262,16 @@ class Gen:
                 raise Unsupported('unknown variable ' + e[1])
             if env[e[1]][1] == 'undef':
                 raise Unsupported('read of a declared but (here) unassigned variable ' + e[1])
+            if env[e[1]][1] == 'defer':
+                # `let mask = (1 << n) - 1;` whose integer type is fixed by its USE: translated where it is used, at the type
+                # wanted there, provided no variable it reads has been re-bound since the `let`
+                dexpr, snap = env[e[1]][3], env[e[1]][2]
+                if not isinstance(want, int):
+                    raise Unsupported('untyped literal')
+                for v in free_vars(dexpr, []):
+                    if v in snap and env.get(v) != snap[v]:
+                        raise Unsupported('deferred let: a variable it reads was re-bound before its use')
+                return self.ex(dexpr, snap, want)
             if env[e[1]][1] == 'lit':
                 if want == 'nat':
                     return env[e[1]][0], 'nat'
@@ -1166,6 +1327,11 @@ class Gen:
                 if c is None or not 0 <= c < len(ty):
                     raise Unsupported('index into a fixed array')
                 return f'{atom(t)}{proj(c, len(ty))}', ty[c]
+            if ty == 'words':
+                ix, tix = self.ex(e[2], env, 'nat')
+                if tix != 'nat':
+                    raise Unsupported('index of type ' + str(tix))
+                return f'({atom(t)}.getD {atom(ix)} 0#64)', 64
             if ty != 'uint':
                 raise Unsupported('index into ' + str(ty))
             ix, tix = self.ex(e[2], env, 'nat')
@@ -1208,8 +1374,23 @@ class Gen:
                     raise Unsupported(f'field type {ty} for {fty}')
                 parts.append(f'{f} := {t}')
             return '({ ' + ', '.join(parts) + ' } : ' + lname + ')', 'struct:' + name
+        if k == 'block':
+            if not e[1]:
+                return self.ex(e[2], env, want)
+            e2, l2, saved = dict(env), [], dict(self.cenv)
+            self.run(e[1], e2, l2)
+            t, ty = self.ex(e[2], e2, want)
+            self.cenv = saved
+            return '(' + join_lines('\n    ', l2 + [t]) + ')', ty
+        if k == 'ifexpr':
+            c = self.cond_prop(e[1], env)
+            a, ta = self.ex(e[2], env, want)
+            b, tb = self.ex(e[3], env, ta)
+            if ta != tb:
+                raise Unsupported('if expression: branch types differ')
+            return f'(if {c} then {a} else {b})', ta
         if k == 'tuple':
-            parts = [self.ex(x, env, (want[i] if isinstance(want, tuple) else None)) for i, x in enumerate(e[1])]
+            parts = [self.ex(x, env, (want[i] if isinstance(want, tuple) and i < len(want) else None)) for i, x in enumerate(e[1])]
             return '(' + ', '.join(p[0] for p in parts) + ')', tuple(p[1] for p in parts)
         if k == 'not':
             t, ty = self.ex(e[1], env, want)
@@ -1330,6 +1511,12 @@ class Gen:
                 return f'(decide ({a} {lop} {b}))', 'bool'
             if op in ('&&', '||'):
                 return f'({a} {op} {b})', 'bool'
+            if op in ('/', '%') and self.ext.get('defer_lets') and isinstance(ta, int) and not isinstance(ta, SInt) and ta != 'bool':
+                # unsigned division / remainder (`BitVec` `/` and `%` are `udiv` / `umod`; a zero divisor panics in Rust and
+                # yields 0 / the dividend here: only constant non-zero divisors are accepted)
+                if not self.const(e[3]):
+                    raise Unsupported('division by a non-constant')
+                return f'({a} {op} {b})', ta
             lop = {'&': '&&&', '|': '|||', '^': '^^^', '+': '+', '-': '-', '*': '*', '/': '/', '%': '%'}.get(op)
             if lop is None or ta == 'bool' or not isinstance(ta, int):
                 raise Unsupported('operator ' + op)
@@ -1560,12 +1747,30 @@ class Gen:
                     continue
                 want = ty_of(ann, self.self_ty) if ann else None
                 if ann is None and self.untyped(e, env):
+                    if self.ext.get('defer_lets'):
+                        # the integer type of this `let` is fixed by its use: translated there (see `ex`, 'defer')
+                        env[name] = ('?' + name, 'defer', dict(env), e)
+                        continue
                     # `let index_mask = 1 << index_in_limb;`: the one integer width with which the rest of the block translates
                     want = self.infer_let_width(name, e, stmts[pos + 1:], env, lines, declared)
                 t, ty = self.ex(e, env, want)
                 self.bind(name, t, ty, env, lines)
             elif k == 'lettuple':
                 _, names, e = st
+                if (e[0] == 'tuple' and len(e[1]) == len(names) and any(x[0] == 'lit' and not x[2] for x in e[1])
+                        and all(not v.startswith('_') for v in names) and len(set(names)) == len(names)):
+                    # `let (mut steps, mut f, mut g) = (62, f[0] as i64, g[0] as i128);`: component-wise `let`s, every
+                    # right-hand side evaluated BEFORE any of the names is bound; an untyped literal stays untyped
+                    vals = [None if (x[0] == 'lit' and not x[2]) else self.ex(x, env) for x in e[1]]
+                    for v, x, val in zip(names, e[1], vals):
+                        if declared is not None:
+                            declared.add(v)
+                        if val is None:
+                            env[v] = (str(x[1]), 'lit')
+                            self.cenv[v] = x[1]
+                        else:
+                            self.bind(v, val[0], val[1], env, lines)
+                    continue
                 t, ty = self.ex(e, env)
                 if not isinstance(ty, tuple) or len(ty) != len(names) or len(names) < 2:
                     raise Unsupported('tuple pattern on non-pair')
@@ -1603,6 +1808,11 @@ class Gen:
             elif k == 'assign_idx':
                 # `arr[i] = e` / `arr[i] op= e`: a new list with position `i` replaced
                 _, name, idx, op, rhs = st
+                if name in env and isinstance(env[name][1], tuple):
+                    # a fixed array (tuple): `t[K] = e` re-binds `t` to the tuple with component K replaced
+                    e = rhs if op == '=' else ('bin', op[:-1], ('index', ('var', name), idx), rhs)
+                    self.set_component(name, idx, e, None, env, lines)
+                    continue
                 if name not in env or env[name][1] != 'uint':
                     raise Unsupported('indexed assignment to ' + name)
                 e = rhs if op == '=' else ('bin', op[:-1], ('index', ('var', name), idx), rhs)
@@ -1630,8 +1840,115 @@ class Gen:
                 if ty != self.rty:
                     raise Unsupported(f'return type {ty} vs {self.rty}')
                 lines.append(f'if {c} then {t} else')
+            elif k == 'loop':
+                self.do_loop(st[1], env, lines)
             else:
                 raise Unsupported('statement ' + k)
+
+    def set_component(self, name, idx, e, val, env, lines):
+        """`t[K] = e` on a fixed array (a tuple): `t` re-bound to the tuple with component K replaced (`val` = an already
+        translated (text, type) instead of the expression `e`)"""
+        ty = env[name][1]
+        c = self.const(idx)
+        if c is None or not 0 <= c < len(ty):
+            raise Unsupported('index into a fixed array')
+        t, tt = val if val is not None else self.ex(e, env, ty[c])
+        if tt != ty[c]:
+            raise Unsupported('array element of type ' + str(tt))
+        cur = atom(env[name][0])
+        comps = [t if i == c else f'{cur}{proj(i, len(ty))}' for i in range(len(ty))]
+        self.bind(name, '(' + ', '.join(comps) + ')', ty, env, lines)
+
+    LOOP_LIT_TYPES = (SInt(64), SInt(32), SInt(128), SInt(8), SInt(16), 64, 32, 128, 8, 16)
+
+    def do_loop(self, body, env, lines):
+        """`loop { pre..; if cond { break; } post.. }` (one `break`, at the top level of the body): an auxiliary definition
+            `<fn>_loop<k> captured.. : Nat → state.. → state`
+        by recursion on a FUEL argument: `| 0, s => s | n + 1, s => pre; if cond then s' else post; recurse n s''`.
+        A `loop` has no syntactic trip bound: the fuel is an INPUT of the translation (unit option `fuel`, per function) and
+        the bridge theorems have to prove that the `break` is reached within it."""
+        fuel = (self.ext.get('fuel') or {}).get(self.fname)
+        if fuel is None:
+            raise Unsupported('`loop` without a declared trip bound')
+        brk = [j for j, st in enumerate(body) if st[0] == 'if' and st[2] == [('break',)] and st[3] is None]
+        if len(brk) != 1 or has_break(body[:brk[0]]) or has_break(body[brk[0] + 1:]):
+            raise Unsupported('loop form: exactly one top-level `if c { break; }`')
+        pre, cond, post = body[:brk[0]], body[brk[0]][1], body[brk[0] + 1:]
+        assigned = assigned_vars(pre + post)
+        if not assigned or any(s not in env for s in assigned):
+            raise Unsupported('loop state')
+        state = [v for v in env if v in assigned]
+        used = free_vars(body, [])
+        captured = [v for v in env if v in used and v not in state]
+        if any(env[v][1] in ('lit', 'defer') for v in captured):
+            raise Unsupported('loop body reads an untyped outer variable')
+        if any(env[s][1] == 'defer' for s in state):
+            raise Unsupported('loop state')
+        untyped = [s for s in state if env[s][1] == 'lit']
+        if len(untyped) > 1:
+            raise Unsupported('too many untyped loop variables')
+        choices = [[w] for w in self.LOOP_LIT_TYPES] if untyped else [[]]
+        saved = (self.pn, self.nloop, list(self.aux), dict(self.cenv))
+        found, err = [], None
+        for ch in choices:
+            self.pn, self.nloop, self.aux, self.cenv = saved[0], saved[1], list(saved[2]), {}
+            styp = [ch[0] if s in untyped else env[s][1] for s in state]
+            try:
+                found.append((styp, self.loop_break_text(pre, cond, post, state, styp, captured, env), self.pn, self.nloop, self.aux))
+            except Unsupported as ex:
+                err = err or ex
+        self.pn, self.nloop, self.aux, self.cenv = saved[0], saved[1], list(saved[2]), saved[3]
+        if not found:
+            raise err
+        if any(f[1] != found[0][1] for f in found[1:]):
+            raise Unsupported('ambiguous type of an untyped loop variable')
+        styp, (text, aux), self.pn, self.nloop, self.aux = found[0]
+        self.aux.append(text)
+        for s, ty in zip(state, styp):
+            if env[s][1] == 'lit':
+                env[s] = (f'{env[s][0]}#{ty}', ty)
+                self.cenv.pop(s, None)
+        callt = (f'({self.ns}.{aux}' + ''.join(f' {atom(env[v][0])}' for v in captured) + f' {fuel} '
+                 + ' '.join(atom(env[s][0]) for s in state) + ')')
+        if len(state) == 1:
+            self.bind(state[0], callt, styp[0], env, lines)
+        else:
+            self.pn += 1
+            tmp = f'p{self.pn}'
+            lines.append(f'let {tmp} := {callt}')
+            for idx, s in enumerate(state):
+                self.bind(s, f'{tmp}{proj(idx, len(state))}', styp[idx], env, lines)
+
+    def loop_break_text(self, pre, cond, post, state, styp, captured, env):
+        self.nloop += 1
+        aux = f'{self.fname}_loop{self.nloop}'
+        env2 = {}
+        for v in captured:
+            env2[v] = (self.fresh(v, env2), env[v][1])
+        for s, ty in zip(state, styp):
+            env2[s] = (self.fresh(s, env2), ty)
+        nvar = self.fresh('n', env2)
+        env2['\0n'] = (nvar, 'nat')
+        outer, declared = set(env2), set()
+        pat = ', '.join(env2[s][0] for s in state)
+        tup = f'({pat})' if len(state) > 1 else pat
+        capb = ''.join(f' ({env2[v][0]} : {lean_ty(env2[v][1])})' for v in captured)
+        capa = ''.join(f' {env2[v][0]}' for v in captured)
+        lty = [(f'({lean_ty(t)})' if isinstance(t, tuple) else lean_ty(t)) for t in styp]
+        lines1, lines2 = [], []
+        self.run(pre, env2, lines1, declared)
+        ctext = self.cond_prop(cond, env2)
+        mid = '(' + ', '.join(env2[s][0] for s in state) + ')' if len(state) > 1 else env2[state[0]][0]
+        self.run(post, env2, lines2, declared)
+        if declared & outer:
+            raise Unsupported('loop body shadows an outer variable')
+        if any(env2[s][1] != ty for s, ty in zip(state, styp)):
+            raise Unsupported('loop state changes type')
+        text = (f'@[gen_defs] def {aux}{capb} : Nat → ' + ' → '.join(lty) + ' → ' + ' × '.join(lty) + '\n'
+                + f'  | 0, {pat} => {tup}\n'
+                + f'  | {nvar} + 1, {pat} =>\n    ' + join_lines('\n    ', lines1 + [f'if {ctext} then {mid} else'] + lines2)
+                + f'\n    {self.ns}.{aux}{capa} {nvar} ' + ' '.join(atom(env2[s][0]) for s in state))
+        return text, aux
 
     def do_assign_tuple(self, lvs, rhs, env, lines):
         """`(lv, lv, ..) = e;`: the right-hand side first, then the targets from left to right"""
@@ -1654,6 +1971,9 @@ class Gen:
                 self.bind(name, comp, cty, env, lines)
             else:
                 ixe = lv[2] if lv[0] == 'index' else lv[1][2]
+                if lv[0] == 'index' and isinstance(env[name][1], tuple):
+                    self.set_component(name, ixe, None, (comp, cty), env, lines)
+                    continue
                 if env[name][1] != 'uint' or cty != ('wrap:1' if lv[0] == 'index' else 64):
                     raise Unsupported('indexed assignment to ' + name)
                 ix, tix = self.ex(ixe, env, 'nat')
@@ -2168,6 +2488,9 @@ class Gen:
         """function body -> lean lines; `outs`: the `&mut` slice parameters of a function without a return type, whose final
         values are the result"""
         body = re.sub(r'//[^\n]*', '', body)
+        if self.ext.get('defer_lets'):
+            # round 4 (safegcd unit): cfg-selected inner blocks, nested `const fn` items
+            body = strip_nested_fns(select_cfg_blocks(body))
         body = re.sub(r'#\[[^\]]*\]', '', body)
         body = strip_debug_asserts(body)
         if OPTS.get('skip_asserts'):
@@ -2326,7 +2649,7 @@ def lean_ty(t):
     if t in ('int', 'words'):
         return 'List (BitVec 64)'
     if isinstance(t, tuple):
-        return ' × '.join(lean_ty(x) for x in t)
+        return ' × '.join((f'({lean_ty(x)})' if isinstance(x, tuple) else lean_ty(x)) for x in t)
     return _lean_ty_r3(t)
 
 
@@ -2608,6 +2931,15 @@ def translate_file(path, ns, self_ty, want=None, private=False, ext=None, cut=No
         src = open(path).read()
         if cut and cut in src:
             src = src[:src.index(cut)]      # only the free functions in front of the first `impl` block (unit option `cut`)
+        for mod in (ext or {}).get('skip_mods', []):
+            # a nested module that only re-exports the functions of the file (verification hooks): not part of the unit
+            mm = re.search(r'\bmod\s+' + mod + r'\s*\{', src)
+            if mm:
+                src = src[:mm.start()] + src[_balanced_end(src, mm.end()):]
+        if (ext or {}).get('defer_lets'):
+            TYPE_ALIASES.clear()
+            for mm in re.finditer(r'^\s*(?:pub(?:\([a-z]+\))?\s+)?type\s+(\w+)\s*=\s*([^\n]+);[ \t]*$', src, re.M):
+                TYPE_ALIASES[mm.group(1)] = mm.group(2).strip()
         if self_ty:
             m = re.search(r'impl\s+' + self_ty + r'\s*\{', src)
             if not m:
@@ -2789,6 +3121,12 @@ FILES = [
                    'overflowing_add', 'checked_add', 'wrapping_add', 'overflowing_neg', 'wrapping_neg', 'checked_neg'],
              uint_more=['uint_sel'], limb_more=['limb_sel'], consts=['MAX', 'MIN', 'SIGN_MASK', 'ONE']),
     ]),
+    # the word-level core of safegcd (src/modular/safegcd.rs, 64-bit configuration)
+    ('SafeGcd.lean', ['CB.Gen.Prim', None, 'set_option linter.unusedVariables false'], [
+        dict(key='safegcd', rel='src/modular/safegcd.rs', ns='CB.Gen.SafeGcd', self_ty=None, private=True,
+             desc='safegcd word level: iterations, inv_mod2_62, jump (the 62 batched divsteps on the low words; `loop`/`break` by fuel)',
+             want=['iterations', 'inv_mod2_62', 'min', 'jump'], skip_mods=['verif'], defer_lets=True, fuel=dict(jump='64')),
+    ]),
 ]
 
 AUX = re.compile(r'\w+_loop\d+$')
@@ -2862,6 +3200,9 @@ def main():
             OPTS.update({k: u[k] for k in ('skip_asserts', 'free_generic', 'slices', 'nat_loops') if u.get(k)})
             ext['uint_more'] = [reg[k] for k in u.get('uint_more', []) if k in reg]
             ext.update(int=reg.get('int'))
+            for opt in ('fuel', 'skip_mods', 'defer_lets'):
+                if u.get(opt):
+                    ext[opt] = u[opt]
             try:
                 order, out, failed, sigs = translate_file(path, ns, self_ty, u.get('want'), u.get('private', False), ext, u.get('cut'))
             except (Unsupported, OSError) as ex:
